@@ -66,3 +66,91 @@ def check_lookaround(rep, f, prefix=""):
         rep.ob(prefix + "lookaround.%s-returns-%s" % (arm, want), "build/action.rs emit_lookaround_action_code arm %s: %r" % (arm, text), ok,
                "the action for %s does not return the %s location" % ("@L" if arm == "Lookahead" else "@R", want),
                key="lookaround:%s" % arm, file="lalrpop/src/build/action.rs", line=arms.get(arm, [{"line": 0}])[0]["line"])
+
+
+def check_inline_spans(rep, f, prefix=""):
+    """Spans handed to an inlined production (build::action::emit_inline_action_code, first pass), by abstract
+    evaluation of the generator's guards and index expressions for every (arg_counter k, num_flat_args n) with
+    0 <= k <= n <= 3:  non-empty item: (start of its first symbol, end of its last);  empty item (this is what @L / @R
+    are): lookbehind := end of the previous symbol, else start of the next, else the caller's lookbehind;
+    lookahead := start of the next symbol, else end of the last symbol, else the caller's lookahead."""
+    T = f.tmpl
+    ms = sorted([m for m in T.macros if m["macro"] == "rust" and m["fmt"] and m["file"].endswith("build/action.rs")
+                 and m["fn"].endswith("emit_inline_action_code") and re.match(r"^let ·0·(start|end)·1· = ", tu.cooked(m["fmt"]))], key=lambda m: m["seq"])
+    if not rep.floor(prefix + "inline span templates", len(ms), 8):
+        return
+
+    def safe_eval(expr, env):
+        e = expr.replace(" ", "")
+        e = e.replace("syms.is_empty()", "EMPTY").replace("syms.len()", "SLEN")
+        e = re.sub(r"!(?!=)", " not ", e)
+        if not re.fullmatch(r"[A-Za-z_0-9<>=!+\-() ]+", e.replace("not", "")) and not re.fullmatch(r"[A-Za-z_0-9<>=!+\-() not]+", e):
+            return None
+        try:
+            return eval(e, {"__builtins__": {}}, env)
+        except Exception:
+            return None
+
+    def selected(kind, env):
+        out = []
+        for m in ms:
+            c = tu.cooked(m["fmt"])
+            if not c.startswith("let ·0·%s·1·" % kind):
+                continue
+            ok = True
+            for g in m["guards"]:
+                if g["kind"] not in ("if", "else"):
+                    continue
+                v = safe_eval(g["cond"], env)
+                if v is None:
+                    ok = None
+                    break
+                if (g["kind"] == "if") != bool(v):
+                    ok = False
+                    break
+            if ok is None:
+                return None
+            if ok:
+                rhs = c.split("=", 1)[1].strip()
+                mm = re.match(r"^·2··3·\.([02])\.clone\(\);$", rhs)
+                if mm:
+                    idx = safe_eval(m["args"][3]["expr"], env)
+                    out.append(("arg", idx, int(mm.group(1))))
+                elif re.match(r"^·2·lookbehind\.clone\(\);$", rhs):
+                    out.append(("lookbehind",))
+                elif re.match(r"^·2·lookahead\.clone\(\);$", rhs):
+                    out.append(("lookahead",))
+                else:
+                    out.append(("?", rhs))
+        return out
+
+    bad = []
+    n_cfg = 0
+    for n in range(0, 4):
+        for k in range(0, n + 1):
+            # empty inlined item at position k of n flat arguments
+            env = {"arg_counter": k, "num_flat_args": n, "EMPTY": True, "SLEN": 0, "last_arg_index": k - 1}
+            want_s = ("arg", k - 1, 2) if k > 0 else (("arg", k, 0) if n > 0 else ("lookbehind",))
+            want_e = ("arg", k, 0) if k < n else (("arg", n - 1, 2) if n > 0 else ("lookahead",))
+            for kind, want in (("start", want_s), ("end", want_e)):
+                n_cfg += 1
+                got = selected(kind, env)
+                if got != [want]:
+                    bad.append(("empty", k, n, kind, got, want))
+            # non-empty item of length L starting at k
+            for L in range(1, n - k + 1):
+                env = {"arg_counter": k, "num_flat_args": n, "EMPTY": False, "SLEN": L, "last_arg_index": k + L - 1}
+                for kind, want in (("start", ("arg", k, 0)), ("end", ("arg", k + L - 1, 2))):
+                    n_cfg += 1
+                    got = selected(kind, env)
+                    if got != [want]:
+                        bad.append(("nonempty", k, n, kind, got, want))
+    rep.analysed["inline_span_configurations"] = n_cfg
+    rep.ob(prefix + "inline.spans-follow-neighbours", "emit_inline_action_code: %d (position, arity, length) configurations evaluated" % n_cfg, not bad,
+           "for an inlined item the generator selects %s" % "; ".join("%s item at %d of %d: %s = %s, documented %s" % b for b in bad[:3]),
+           key="inline-span", file="lalrpop/src/build/action.rs", line=ms[0]["line"])
+    # last_arg_index is arg_counter + syms.len() - 1
+    lets = [l for l in T.lets if l["file"].endswith("build/action.rs") and l["fn"].endswith("emit_inline_action_code") and l["pat"].strip() == "last_arg_index"]
+    ok = len(lets) == 1 and lets[0]["init"].replace(" ", "") in ("arg_counter+syms.len()-1", "arg_counter+(syms.len()-1)", "syms.len()+arg_counter-1")
+    rep.ob(prefix + "inline.last-argument-index", "last_arg_index = %s" % (lets[0]["init"] if lets else "?"), ok,
+           "the end of a non-empty inlined item is not taken from its last symbol", key="inline-last-arg", file="lalrpop/src/build/action.rs", line=lets[0]["line"] if lets else 0)
